@@ -127,15 +127,24 @@ example : intSqrt 1000000 = 1000 ∧ intSqrt 999999 = 999 ∧ intSqrt (2 ^ 64 - 
         stream, RoundTripOK accepts) from the connectivity link, decoder-side structural facts, value conditions, the
         row correspondence and traversal coverage — with a fully discharged instance on a one-triangle stream;
       * `eb_ctiso_sound`: the Boolean `ctIso` the op evaluates implies the Prop-level isomorphism `CTIso`.
-      Missing for the full implication (evaluated per case — `rt-ok`, `iso-ok`, `hyp-ok` —, not proved):
-      `assign_points_correspond` (the
-      decoder's point ids realise the encoder's corner → attribute value relation — the checked hypothesis
-      `decParent` is its instance for the parent attribute), the connectivity round trip itself (that the decoder
-      builds a table with `ctIso`), the attribute section as a whole and the step from the portable values to
-      `Spec.checkCore`.
+      In the proof library, feeding the hypotheses of `eb_roundtrip_conditional_partial` (follow-ups 3 and 4 of
+      notes/ebenc.md): `assign_points_correspond` (`assignPoints_consistent`, `posAgree_of_setup`: the decoder's
+      point ids realise the encoder's corner → attribute value relation; the formerly checked hypothesis
+      `decParent` follows from the view isomorphism), the row correspondence of every attribute kind
+      (`row_of_item_kind0…3`), `values_refine_vertices`, the attribute section as a whole (`runs_decodeAttributes`,
+      `planOK_of_setup`, `eb_stream_decodes`) and the step from the portable values to `Spec.checkCore`
+      (`checkCore_edgebreaker_of_faces`, `faceCorr_of_rows`).
+      Still missing for the unconditional implication (evaluated per case — `iso-ok`, `coverage`, `hyp-ok`,
+      `rt-ok` —, not proved): the connectivity round trip itself (that the decoder builds a table with `ctIso`
+      from the encoder's symbols: hypotheses `hconn` / `hnf`; proved on one concrete stream,
+      DracoProofs/EbConnExample.lean) and traversal coverage (`hcover`: `processed.size = num_faces −
+      NumDegeneratedFaces`).
   (c) `eb_encoded_counts_partial`: under CTIso the decoder's face count is the number of faces the encoder
-      processed; that this is `num_faces − NumDegeneratedFaces` (what the encoder reports) and the statement
-      about points are evaluated (`counts-ok`), not proved.
+      processed; that this is `num_faces − NumDegeneratedFaces` (what the encoder reports) is the coverage fact
+      above (`encodeConnectivity_faces` in DracoProofs/EbEncCounts.lean proves `≤`, with equality iff coverage);
+      the statement about points is split into DracoProps/C09Eb.lean (`eb_decoded_points_fans`,
+      `eb_encoded_points_fans`) and DracoProofs/EbCountsIso.lean (`eb_encoded_points_eq_decoded`, all links as
+      hypotheses); both counts are also evaluated per case (`counts-ok`).
 -/
 
 open Draco.EbEnc in
